@@ -1,6 +1,6 @@
 """C01 — a successful incremental build equals a clean build (DESIGN 5.1)."""
 from facts import AnalysisBroken
-from model import (path_value, dstr, strip, fact_holds, mentions_field, mentions_call, mentions_var,
+from model import (facts_str, path_value, dstr, strip, fact_holds, mentions_field, mentions_call, mentions_var,
                    mentions_enum, const_value, walk)
 from rules import (absent_from, guarded, calls_to, field_writes, who_may_call, must_pass, dominated_by,
                    full_range, loops_over, every_iteration_passes, basename, error_discipline,
@@ -383,7 +383,44 @@ def run(ctx):
               'RealDiskInterface::Stat asks stat()/stat64() (the symlink target\'s mtime): %s' % sorted({e['name'] for e in sc}))
     for f2, e2 in list(calls_to(prog, 'lstat')) + list(calls_to(prog, 'lstat64')):
         ctx.violation('C01.V1', f2.name, 'lstat-user', f2.where(e2), 'lstat() is used in %s: mtimes of symlinks instead of their targets' % f2.name)
-    ctx.floor('C01.V1', 8)
+    # the contract of the value: 0 = "does not exist" only for ENOENT / ENOTDIR, -1 (with a message) for every other failure,
+    # otherwise a positive time that keeps the sub-second part (a coarser clock hides an edit made within the same second
+    # as the previous build)
+    for e in st.events('ret'):
+        v = const_value(e.get('e'))
+        facts = st.facts_at(e)
+        failed = fact_holds(facts, lambda a: isinstance(strip(a), dict) and strip(a).get('k') == 'bin' and strip(a)['op'] == '<' and
+                            const_value(strip(a)['r']) == 0 and any(mentions_call(a, n) for n in ('stat', 'stat64', '__xstat')), True)
+        okstat = fact_holds(facts, lambda a: isinstance(strip(a), dict) and strip(a).get('k') == 'bin' and strip(a)['op'] == '<' and
+                            const_value(strip(a)['r']) == 0 and any(mentions_call(a, n) for n in ('stat', 'stat64', '__xstat')), False)
+        if v == 0:
+            ctx.check('C01.V1', failed, st.name, 'Stat:zero-without-failed-stat', st.where(e),
+                      '"does not exist" (0) is answered only where stat() failed; facts: %s' % facts_str(facts)[:6])
+            # ... and only for the two errno values that mean so: no path from the failed stat to this return avoids both tests
+            def other_errno(b, i, s2):
+                for key, pol, atom in st.edge_facts(b, i, all=True):
+                    a = strip(atom)
+                    if pol and isinstance(a, dict) and a.get('k') == 'bin' and a['op'] == '==' and mentions_call(a['l'], '__errno_location') \
+                            and const_value(a['r']) in (2, 20):
+                        return False
+                return True
+            r = st.find_path(None, lambda x: x is e, from_succ=st.entry, edge_ok=other_errno)
+            ctx.check('C01.V1', r is None, st.name, 'Stat:zero-for-other-errors', st.where(e),
+                      '0 is reached only through errno == ENOENT or errno == ENOTDIR (a permission or I/O error is not "missing")',
+                      witness=None if r is None else {'blocks': r[0]})
+        elif v == -1:
+            ctx.check('C01.V1', failed, st.name, 'Stat:error-without-failed-stat', st.where(e), '-1 is answered only where stat() failed')
+            r = st.find_path(None, lambda x: x is e, from_succ=st.entry,
+                             is_blocker=lambda x: (x['k'] == 'call' and x.get('name', '').endswith('operator=') and 'err' in (x.get('src') or '')) or
+                             (x['k'] in ('asg', 'deref') and 'err' in (x.get('src') or dstr(x.get('l') or x.get('e')) or '')))
+            ctx.check('C01.V1', r is None, st.name, 'Stat:error-without-message', st.where(e), 'an error return sets *err')
+        elif v is not None:
+            ctx.check('C01.V1', okstat and v > 0, st.name, 'Stat:constant-time', st.where(e), 'a constant time (%s) is positive and behind a successful stat()' % v)
+        else:
+            txt = dstr(e.get('e'))
+            ctx.check('C01.V1', okstat and 'tv_sec' in txt and 'tv_nsec' in txt and '1000000000' in txt, st.name, 'Stat:time-loses-precision', st.where(e),
+                      'the time returned is seconds * 10^9 + nanoseconds of st_mtim: %s' % txt[:120])
+    ctx.floor('C01.V1', 12)
 
     # ---- O3: the plan covers what the scan found -------------------------------------------------
     R('C01.O3', 'O', 'Plan::AddSubTarget recurses into every input, wants an edge iff its node is '
